@@ -164,6 +164,7 @@ func (e *env) quiesce() bool {
 
 func (e *env) snapshot() {
 	e.rec.Emit("State %s", e.runner.GetState())
+	e.census()
 	if e.rec.WaitFor("Callback some", 0) {
 		// "CompositeRunner{name: cfg<seq>, entries: <n>}"
 		str := e.runner.String()
@@ -174,6 +175,29 @@ func (e *env) snapshot() {
 			}
 		}
 	}
+}
+
+// census records the goroutines the composite created on its own behalf (C18): child goroutines
+// (created by boot), Stop workers (created by stopAllRunnables) and anything else created inside the
+// library.  Not recorded when a child is itself a real composite.Runner (its goroutines would count).
+func (e *env) census() {
+	for _, p := range e.sc.Pool {
+		if p.Nested {
+			return
+		}
+	}
+	k, w, o := 0, 0, 0
+	for fn, n := range director.CreatedByLibrary() {
+		switch {
+		case strings.HasSuffix(fn, ".boot") || strings.Contains(fn, ".boot."):
+			k += n
+		case strings.HasSuffix(fn, ".stopAllRunnables") || strings.Contains(fn, ".stopAllRunnables."):
+			w += n
+		default:
+			o += n
+		}
+	}
+	e.rec.Emit("Census %d %d %d", k, w, o)
 }
 
 func runScenario(sc Scenario) {
@@ -241,6 +265,7 @@ func runScenario(sc Scenario) {
 				}
 			}
 			quiet = e.quiesce() && quiet
+			e.census()
 		case "release":
 			if e.park != nil {
 				e.park.Release()
